@@ -280,6 +280,12 @@ pub mod nix { pub mod unistd {
         pub fn from_raw(r: u32) -> (u: Gid) ensures u.raw == r { Gid { raw: r } }
         pub fn as_raw(&self) -> (r: u32) ensures r == self.raw { self.raw }
     }
+    impl Uid {
+        // the effective user of the process (whoever that is), and whether an id is root's
+        #[verifier::external_body] pub fn effective() -> Uid { unimplemented!() }
+        #[verifier::external_body] pub fn current() -> Uid { unimplemented!() }
+        #[verifier::external_body] pub fn is_root(self) -> (r: bool) ensures r == (self.raw == 0) { unimplemented!() }
+    }
     pub struct User { pub uid: Uid }
     pub struct Group { pub gid: Gid }
     pub uninterp spec fn user_db(name: Seq<char>) -> Option<u32>;
